@@ -165,9 +165,9 @@ def r19d(ck, fb):
     ck.rule('R19d', 'SimpleSequence arithmetic, by exhaustive interpretation of the compiled functions over a small grid (last_id 0..6, '
                     'batch 1..4, cache 0..batch): next_state issues last_id+1, reserves last_id+batch exactly when the cache is empty and the '
                     'reserved mark >= every id issued from that batch; set_valid_last_id never lowers get_end_id and raises it to at least '
-                    'the mark; set_last_id sets it; get_end_id = last_id + cache_size')
+                    'the mark; set_last_id sets it; get_end_id = last_id + cache_size; next_section(k) hands out [last+1, last+k] and leaves nothing reserved behind it')
     fns = {}
-    for fn in ('next_state', 'set_valid_last_id', 'set_last_id', 'get_end_id'):
+    for fn in ('next_state', 'set_valid_last_id', 'set_last_id', 'get_end_id', 'next_section'):
         b = ck.body(SU + fn, 'R19d')
         if not b:
             return
@@ -211,6 +211,24 @@ def r19d(ck, fb):
                     end1 = fld(s1, 'last_id') + fld(s1, 'cache_size')
                     if end1 < issued or (cache > 0 and end1 != end0) or (cache == 0 and end1 != last + batch):
                         bad['next_state:end-stable'] = 'reserved end moved from %d to %d (issued %d)' % (end0, end1, issued)
+                    # a section handed to an import: [last+1, last+k], and NOTHING stays reserved behind it - the caller announces `end` as the
+                    # high-water mark, ids kept in the cache beyond it would be issued later without any announcement (history_table_id None)
+                    for k in range(0, 5):
+                        r, s4 = run1('next_section', _seq(last, batch, cache), BV.const(64, k))
+                        tup = r.fields[0]
+                        st, en = tup.items[0].value(), tup.items[1].value()
+                        end4 = fld(s4, 'last_id') + fld(s4, 'cache_size')
+                        n += 1
+                        if k == 0:
+                            if (st, en) != (0, 0) or fld(s4, 'last_id') != last or fld(s4, 'cache_size') != cache:
+                                bad['next_section:empty'] = 'next_section(0) on (%d,%d,%d) gave (%d,%d) / moved the sequence' % (last, batch, cache, st, en)
+                            continue
+                        if (st, en) != (last + 1, last + k) or fld(s4, 'last_id') != en:
+                            bad['next_section:range'] = 'next_section(%d) on (%d,%d,%d) gave [%d,%d], last_id %d' % (k, last, batch, cache, st, en, fld(s4, 'last_id'))
+                        if end4 != en:
+                            bad['next_section:nothing-reserved-behind'] = ('after next_section(%d) on (last %d, batch %d, cache %d) the sequence still holds ids up to %d '
+                                                                          'although the section (and the mark its caller announces) ends at %d: the next publish is stamped '
+                                                                          'from that rest with history_table_id None' % (k, last, batch, cache, end4, en))
                     for mark in range(0, 12):
                         r, s2 = run1('set_valid_last_id', _seq(last, batch, cache), BV.const(64, mark))
                         end2 = fld(s2, 'last_id') + fld(s2, 'cache_size')
@@ -225,7 +243,8 @@ def r19d(ck, fb):
                 except (Undecided, Unsupported, Panic) as e:
                     bad['interp'] = 'interpretation failed on (%d,%d,%d): %s' % (last, batch, cache, e)
     for key in ('get_end_id', 'next_state:issues-next', 'next_state:reserves', 'next_state:no-reserve', 'next_state:end-stable',
-                'set_valid_last_id:monotone', 'set_valid_last_id:no-change-below', 'set_last_id', 'interp'):
+                'set_valid_last_id:monotone', 'set_valid_last_id:no-change-below', 'set_last_id', 'next_section:empty', 'next_section:range',
+                'next_section:nothing-reserved-behind', 'interp'):
         ck.require(key not in bad, 'R19d', 'SimpleSequence:' + key, fns[key.split(':')[0]].where() if key.split(':')[0] in fns else '-', bad.get(key, ''), 'holds on the grid')
     ck.extra['sequence_grid_cases'] = n
 
